@@ -399,7 +399,12 @@ func (w *world) projNode(wn *wnode) (map[string]interface{}, error) {
 	}
 	r["listed"] = listed
 	// what the public getters show (what a peer / the API sees)
-	r["pubdisc"] = len(wn.n.CI.GetChunkInfoDiscoverOverlays(w.root))
+	r["busy"] = d.DiscoverBusy
+	if d.DiscoverBusy {
+		r["pubdisc"] = len(d.Discover) // the getter would wait for the parked worker
+	} else {
+		r["pubdisc"] = len(wn.n.CI.GetChunkInfoDiscoverOverlays(w.root))
+	}
 	r["pubsrv"] = len(wn.n.CI.GetChunkInfoServerOverlays(w.root))
 	src := wn.n.CI.GetChunkInfoSource(w.root)
 	r["pubsrc"] = len(src.ChunkSource)
